@@ -63,7 +63,7 @@ class PteraNameError(NameError):
         self.function = function
         # The function's information is removed when it is not instrumented
         # anymore, which may well be before the error is caught
-        self._info = function.__ptera_info__[varname]
+        self._info = getattr(function, "__ptera_info__", {}).get(varname, {})
         prov = self.info().get("provenance", None)
         if prov == "external":
             msg = (
